@@ -7,7 +7,7 @@ from vlib import Case, hx, unhx
 
 PROP = "C13"
 REAL_ONLY_OPS = ("crc.emit.",)   # ops that run the real emitters only; judged by oracle() against the receiver check
-PROOF_FILES = ["Properties/C13.v"]
+PROOF_FILES = ["Properties/C13.v", "Properties/C13tie.v"]
 RULE = ("byte strings through ComputeCRC: all strings of length 0..2 (65 793, complete); single-bit strings (one bit set, "
         "rest zero) and all-zero strings; one random string of every length 0..1024; random strings up to 4 KiB and a few up to 64 KiB; known-answer vectors; residue calls; the real emitters (FilterPMTPacketsToPids on generated PMTs of 1..27 streams in 1..3 packets, "
         "SCTE35.UpdateData on generated splice_null / time_signal / splice_insert messages with 0..3 segmentation descriptors) whose output "
@@ -56,8 +56,8 @@ def _gen_emitted(rng, tier):
     oracles, which compare the emitted bytes - CRC_32 included - with the Spec serialisation"""
     import random as _r, importlib
     out = []
-    for name, keep, th in (("c14", lambda c: c.decides and c.kind.startswith("filter-"), "C13_emitted_section_residue_ok + C14_filter_spec"),
-                           ("c09", lambda c: c.decides, "C13_emitted_section_residue_ok + C09 encode")):
+    for name, keep, th in (("c14", lambda c: c.decides and c.kind.startswith("filter-"), "C13tie_filter_emits_mpeg2_crc (C13_emitted_section_residue_ok + C14_filter_spec)"),
+                           ("c09", lambda c: c.decides, "C13tie_update_data_residue_zero (C13_emitted_section_residue_ok + C09_crc_clause)")):
         try:
             m = importlib.import_module("gen." + name)
         except ImportError:
